@@ -48,12 +48,12 @@ def extend(history, step):
 
 REQUIRED = {
  "C01": ["completed_absorbing", "completed_absorbing_run", "sync_tells_assigned", "workers_tasks_inverse", "queued_ops_sane", "ops_tasks_inverse", "completed_task_released", "no_start_after_complete", "tables_structure", "parked_workers", "sched_exclusive", "platform_queues_structure", "p_step_components", "monitor_state_components_on_model", "monitor_components_on_model", "monitor_exec_on_model", "monitor_sync_on_model", "monitor_c06_final_on_model", "uncompleted_task_has_action", "trace_sub_all"],
- "C02": ["call_trace_shape", "stream_done_once", "nothing_after_end", "return_follows_done", "done_faithful", "done_enabled", "stages_monotone", "causes_okb_sound", "responses_have_a_cause", "stream_step_spec", "monitor_stream_on_model"],
+ "C02": ["call_trace_shape", "stream_done_once", "nothing_after_end", "return_follows_done", "done_faithful", "done_enabled", "stages_monotone", "causes_okb_sound", "responses_have_a_cause", "stream_step_spec", "monitor_stream_on_model", "monitor_cancel_on_model", "monitor_gone_on_model"],
  "C03": ["inflight_exact", "live_cacheable_unique", "dup_exec_no_new_task", "exec_start_dnc_keeps_inflight", "fresh_after_completion", "c03_dump_holds", "c03_waited_holds"],
  "C04": ["pick_minimal", "assign_next_in_policy", "descend_cases", "sticky_only_breaks_ties", "minimal_sound", "minimal_complete", "minimal_nonempty", "no_queued_while_parked", "tree_consistent", "qchildren_less_irrefl", "qchildren_less_trans", "assign_next_finds_queued", "schedule_finds_parked", "direct_assign_closest"],
  "C05": ["longest_prefix_pq_sound", "longest_prefix_pq_none", "exec_routes_longest_prefix", "exec_routes_longest_prefix_reachable", "reject_codes", "drained_gets_nothing", "undrain_eligible"],
- "C06": ["waiters_exact", "parked_on_registered", "armed_only_unwaited", "armed_when_unwaited", "enter_fires_all_overdue", "maybe_start_cleanup_arms", "retry_limit", "worker_timeout", "no_waiter_timeout", "worker_attended", "workerless_queue_armed", "gc_complete"],
- "C07": ["selector_linear", "selector_only_at_execute", "learner_linear", "no_learner_no_call", "learner_after_complete", "completed_has_no_learner", "retry_once_largest", "background_bounded", "background_ops_not_cacheable", "background_learners_no_retry", "monitor_learners_on_model", "learner_holder_has_action", "learner_ids_uniqueb_sound"],
+ "C06": ["waiters_exact", "parked_on_registered", "armed_only_unwaited", "armed_when_unwaited", "enter_fires_all_overdue", "maybe_start_cleanup_arms", "retry_limit", "worker_timeout", "no_waiter_timeout", "worker_attended", "workerless_queue_armed", "gc_complete", "sync_answer_armed", "monitor_arm_on_model"],
+ "C07": ["selector_linear", "selector_only_at_execute", "learner_linear", "no_learner_no_call", "learner_after_complete", "completed_has_no_learner", "retry_once_largest", "background_bounded", "background_ops_not_cacheable", "background_learners_no_retry", "monitor_learners_on_model", "learner_holder_has_action", "learner_ids_uniqueb_sound", "bg_scripts_okb_sound"],
 }
 
 
